@@ -63,6 +63,10 @@ def observe(x, sizes=True, anon=False, depth=0):
         return ["N"]
     if isinstance(x, BaseArray):
         return ["A?", type(x).__name__]
+    val = getattr(x, "value", None)
+    if isinstance(val, (bytes, bytearray)):
+        # a custom type (add_custom_type) whose instances carry their payload in a mutable attribute
+        return ["C", type(x).__name__, bytes(val).hex()]
     return ["?", type(x).__name__]
 
 
